@@ -257,14 +257,14 @@ class SigmaFilter(SigmaRuleBase):
         #   - the "them" keyword: "1 of them"    -> "1 of PREFIX_*"
         # Sigma keywords (not, and, or, all, any, of, 1) are left unchanged.
         #
-        # The regex matches a single Sigma condition token: an optional leading `*`
-        # (wildcard prefix) or a letter, followed by alphanumerics, `*`, `_`, or `-`.
+        # The regex matches a single Sigma condition token: a sequence of alphanumerics,
+        # `*`, `_`, or `-` (identifiers may also start with a digit or underscore).
         # Wildcards are only valid at the start or end of a Sigma identifier pattern
         # but this regex accepts any occurrence; the Sigma condition parser is
         # responsible for rejecting syntactically invalid patterns at parse time.
         def _replace_token(m: re.Match[str]) -> str:
             token = m.group(0)
-            if token.lower() in self._CONDITION_KEYWORDS:
+            if token in self._CONDITION_KEYWORDS:  # keywords are case-sensitive
                 return token
             if token == "them":
                 # "them" means all detections; replace with a pattern that matches all
@@ -273,7 +273,7 @@ class SigmaFilter(SigmaRuleBase):
             return prefix + "_" + token
 
         filter_condition = re.sub(
-            r"[a-zA-Z*][a-zA-Z0-9*_-]*",
+            r"[a-zA-Z0-9*_-]+",
             _replace_token,
             self.filter.condition[0],
         )
